@@ -21,7 +21,10 @@ CLAIMED = {
              'code equals the atomic reference operation; every read view equals its one-line definition over the edge map '
              'and is sorted as documented. The model is run side by side with the real graph on random and error-directed '
              'histories and all views are compared after every call.',
-        note=_COMMON_NOTE + 'The two edge indexes and per-node lists of the code are views of one edge map in the model.'),
+        note=_COMMON_NOTE + 'The redundant containers of the code (both edge indexes, per-node edge lists, lag / variable indexes) '
+                            'have their own index-level model (CG.Indexed) proved to refine the one-map model for every history '
+                            '(CG.IndexRefine.history_refines, Mirror invariant, reader agreement); the private containers of the real '
+                            'object are compared with it after every call as white-box lines (recorded, never a verdict).'),
     'C02': dict(
         technique='Lean 4 proof (cycle test = transitive closure, acyclicity preserved by validated steps, is_dag exact) with '
                   'differential correspondence and brute-force oracle',
